@@ -69,6 +69,10 @@ CHECKS = {
         technique='property-based metamorphic testing: generated configuration x transformation; relation build(t(c)) ~ build(c) by canonical form (sharing, behavioural partials), plus ==, idempotence, completeness and serializability clauses',
         text='Eleven transformations (materialize_defaults, with_defaults_trimmed in both modes, unintern_tuples_of_literals, replace_unconfigured_partials_with_callables, clear_argument_history, materialize_tags in two modes, auto_config.inline, convert_dataclasses_to_configs) are applied to generated DAGs with positional-only defaults, single and shared mutable defaults (explicit arguments equal to / aliasing them), dataclass default factories, TaggedValues whose payload is shared, Partials in containers and tuples of literals; the built graphs must be canonically identical, == must hold where stated, materialize_defaults must be idempotent and complete, serializability must be preserved. Sharing differences that consist only of default-object identity (and one aliasing defect of replace_unconfigured_partials) are listed known findings, classified by an explicit predicate.',
         note='Trusted: harness/canon.py (incl. no_identity / probe_symbols modes), classification predicates in props/c20.py. == instability under copying is owned by C06 and counted as prerequisite_failed.'),
+    'C11': dict(
+        technique='grammar-based program generation (property-based testing over programs): generated auto_config modules are imported from scratch files; differential oracle plain Python run vs build(as_buildable()) by canonical form',
+        text='A grammar produces module sources with helper auto_config functions and a target (function, closure with optionally re-bound captured variable, lambda, staticmethod, classmethod) over nested calls with positional/keyword/*splat/**splat arguments, variables (sharing), container displays, functools.partial (also of a partial held in a variable), arg_factory.partial, exempt, with_tags, builtins and, with the control-flow option, if/for/comprehensions/conditional expressions; the plain run, the decorated run and build(as_buildable(*args)) must agree in canonical form (values, types, sharing; partials behaviourally), as_buildable may invoke only exempted callables, and a fixed stream of unsupported constructs must raise UnsupportedLanguageConstructError.',
+        note='Trusted: harness/gen/programs.py renderer, CPython as the reference semantics of the generated program, harness/canon.py. Programs outside the generated grammar are not covered.'),
 }
 
 PENDING = {}
